@@ -1,7 +1,7 @@
 """C05 - approximate algorithms return a basis of the caller's graph with true weight."""
 from lib import engine
 from lib.core import tier
-from units import k17_spanner
+from units import k17_spanner, k18d_dijkstra
 from . import common
 
 LEVEL = "other"
@@ -11,7 +11,10 @@ EXPLANATION = (
     "PROVED by CBMC (DFCC, nested loop contracts with ghost indices and ghost partial sums): the loop of "
     "BaseApproxSpannerAlgorithm::run that hands the exact phase's cycles to the caller emits one output cycle per spanner "
     "cycle, edge for edge the TRANSLATION of the spanner edge (a caller's edge by K17a), and adds to the returned weight "
-    "exactly the caller's weights of those edges (K18a; small ghost tables).  BOUNDED for everything else: "
+    "exactly the caller's weights of those edges (K18a; small ghost tables); and parmcb::dijkstra, which supplies the path that "
+    "closes a dropped edge, computes exact shortest-path distances and a tight predecessor tree (K18d, n<=4/5, loop contracts "
+    "with quantified invariants, heap through its contract; lemma DESIGN 10.10; direct Bellman-Ford variant + native replay).  "
+    "BOUNDED for everything else: "
     "Contract K18 (for every k>=1: exactly m-n+c simple cycles, GF(2)-independent, every edge descriptor is one "
     "of the CALLER's edges - checked by identity against the caller's edge set and by reading the caller's "
     "weight map through the descriptor after the call returned - and return value = sum of caller weights) is "
@@ -22,7 +25,7 @@ EXPLANATION = (
 
 
 def run(rep):
-    engine.run_units(rep, [u for u in k17_spanner.units(tier()) if u.get("unit", "").startswith("K18a")])
+    engine.run_units(rep, [u for u in k17_spanner.units(tier()) if u.get("unit", "").startswith("K18a")] + k18d_dijkstra.units(tier()))
     common.native_filtered(rep, "e3_approx", KINDS, args=["--only", "approx"],
                            functions={"approx_mcb_sva_signed": "bounded", "approx_mcb_sva_fvs_trees": "bounded",
                                       "approx_mcb_sva_iso_trees": "bounded", "BaseApproxSpannerAlgorithm::run": "bounded",
